@@ -203,11 +203,16 @@ def metric_corpus():
         inc.add_increase_effect(c, inc.parameter("k"))
         flip = InstantaneousAction("flip", _env=env)
         flip.add_effect(d, em.Not(d))
+        pay = InstantaneousAction("pay", n=tm.IntType(1, 3), _env=env)
+        pay.add_effect(d, em.Not(d))
         p.add_action(inc)
         p.add_action(flip)
+        p.add_action(pay)
         p.add_goal(em.LE(1, c))
         if kind == "costs":
-            p.add_quality_metric(MinimizeActionCosts({inc: em.Plus(c, inc.parameter("k")), flip: em.Times(c, Fraction(1, 2))}, environment=env))
+            # costs that read the pre-state, a fluent-free cost that depends on the action's PARAMETER, and a default
+            p.add_quality_metric(MinimizeActionCosts({inc: em.Plus(c, inc.parameter("k")), flip: em.Times(c, Fraction(1, 2)),
+                                                      pay: em.Plus(em.Times(2, pay.parameter("n")), 1)}, environment=env))
         elif kind == "final":
             p.add_quality_metric(MinimizeExpressionOnFinalState(em.Minus(em.Times(c, 2), 1), environment=env))
         elif kind == "oversub":
